@@ -30,19 +30,25 @@ TECHNIQUE = (
     "independent numpy formula)"
 )
 LEVEL_TEXT = (
-    "Lean theorems for all n / all options: finite differences (3x3 prepend/append + circular) = documented banded matrix, "
-    "lifted to any axis (I (x) A (x) I) and any axes subset (block column); stacks = block matrices; circular convolution "
-    "with integer centre = circulant (and = the DFT-domain evaluation of the code: convolution theorem), from_operator reproduces a shift-invariant operator; convolution modes = windows of "
-    "the Toeplitz matrix; slice/pad/crop/sum/transpose/reshape index maps (Crop = left inverse and adjoint of zero Pad); "
-    "X-ray scatter-add mass conservation; DFT shape bookkeeping, inversion for unpadded transforms; fftfreq grid. "
+    "Lean theorems for all n / all shapes / all options: finite differences (3x3 prepend/append + circular) = documented banded matrix, "
+    "lifted to any axis (I (x) A (x) I) and any axes subset from the constructor arguments (normalize_axes, block column); stacks = "
+    "block matrices; circular convolution in ANY number of dimensions: the DFT-domain evaluation of the code with the constructor's "
+    "shift phases (integer centres, filters longer than the axis cropped) = signal-domain N-d circular convolution = N-d circulant "
+    "(convolution theorem by induction over the axes); arbitrary spectra (h_is_dft, fractional centres) = convolution with ifft(H); "
+    "Hermitian symmetry / DC invariance of the fractional phases; from_operator; N-d Convolve/ConvolveByX modes = windows of the N-d "
+    "Toeplitz matrix; slice/pad/crop/sum/transpose/reshape index maps, pad modes edge/wrap/reflect/symmetric/mean (Crop = left "
+    "inverse of every mode); projected gradients = sum_m diag(c_m) G_m with G from the finite-difference theorems, orthonormal polar "
+    "frame; X-ray 2-D: scatter-add = two-bin matrix, mass conservation from the geometry, weights in (0,1], angle 0 / pi/2 = row / "
+    "column sums from the index/weight formulas (floor a contract); X-ray 3-D footprint split = overlap length; DFT shape "
+    "bookkeeping with Python axes, N-d inversion over any subset of axes (unpadded); fftfreq grid. "
     "The model is tied to scico by comparing dense matrices of the real operators over the configuration grid."
 )
 LEVEL_NOTE = (
-    "Numerical tie only (no theorem beyond structure): Abel (PyAbel reference), 3-D X-ray weights, 2-D X-ray index/weight formulas "
-    "(floor is a contract), projected-gradient coordinate fields, fractional filter-centre phases, N-d (ndims>=2) and complex "
-    "circular/linear convolution, non-constant pad modes, propagator transfer functions (exp/sqrt). DFT inversion is proved "
-    "only for unpadded transforms: DFT.inv with a zero-padding axes_shape (and hence propagators with pad_factor>1) is a known "
-    "defect (dft-inv-padded, negation witness proved). Rounding is not modelled."
+    "Numerical tie only (no theorem beyond structure): Abel (PyAbel reference), Euler-angle matrices and four-pixel scatter of the 3-D "
+    "X-ray projector, coordinate fields (arctan2/sin/cos) of the polar/cylindrical/spherical gradients, propagator transfer functions "
+    "(exp/sqrt), zero-padded N-d DFT. Contracts: jnp.fft, jnp.pad, jax.scipy.signal.convolve, floor/ceil, exp/cos through the "
+    "exponential law. DFT.inv with a zero-padding axes_shape (hence propagators with pad_factor>1) is a known defect (dft-inv-padded, "
+    "negation witness proved). Rounding is not modelled."
 )
 PROP_MODULES = ["Scico.Props.C04"]
 EXTRA_TARGETS = ["Drv.LinOps"]
@@ -442,16 +448,6 @@ def classify(name, c, what="matrix"):
             return "dft-inv-padded"
     if name in ("AngularSpectrumPropagator", "FresnelPropagator") and c.get("pad_factor", 1) > 1:
         return "dft-inv-padded"
-    if name == "XRayTransform3D":
-        import linops_ref
-
-        if linops_ref.xray3d_left_edge_partial(c):
-            return "xray-left-edge-drop"
-    if name == "XRayTransform2D":
-        import linops_ref
-
-        if any(bool(np.any(linops_ref.xray2d_weights(c, a)[0] == -1)) for a in c["angles"]):
-            return "xray-left-edge-drop"
     if name == "ProjectedGradient" and c["cdiff"] and c["coord"] is not None:
         nax = len(c["shape"]) if c["axes"] is None else len(c["axes"])
         if nax == 1:
@@ -697,15 +693,10 @@ def xray_checks(ctx, lean, oracle, name, c, op, R, case):
         if ok_tie:
             D_np_v = linops_ref.r_XRayTransform2D(dict(c, angles=[ang]))
             if not _close(R[v * ny : (v + 1) * ny], D_np_v, 1e-9):
-                # documented boxcar model; the pinned scatter drops BOTH bins of a pixel whose first bin is -1
-                kid = None
-                if bool(np.any(ri == -1)) and _close(R[v * ny : (v + 1) * ny], linops_ref.r_XRayTransform2D(dict(c, angles=[ang]), coded=True), 1e-9):
-                    kid = "xray-left-edge-drop"
                 ctx.count("xray-differs-from-documented")
-                ctx.disagree("ref.XRayTransform2D.matrix", dict(case, view=v), _summ(R[v * ny : (v + 1) * ny]), _summ(D_np_v), oracle=oracle, known_id=kid,
+                ctx.disagree("ref.XRayTransform2D.matrix", dict(case, view=v), _summ(R[v * ny : (v + 1) * ny]), _summ(D_np_v), oracle=oracle,
                              note="view differs from the documented boxcar model (contribution w to bin I and 1 - w to bin I + 1, each when on the detector)")
-                if kid is None or not ctx.is_known(kid):
-                    return False
+                return False
         # (d) documented angles: 0 sums rows, pi/2 sums columns (unit pixels, detector wide enough)
         if c["dx"] == 1.0 and c["x0"] is None and ny >= max(sh) + 1 and r["all_on"]:
             want = None  # (pixel edges coincide with bin edges only when ny - n has the parity of 0)
@@ -724,8 +715,7 @@ def xray_checks(ctx, lean, oracle, name, c, op, R, case):
 
 
 def xray3d_checks(ctx, lean, oracle, name, c, op, R, case, tol):
-    """(a) real matrix = DOCUMENTED footprint model (known finding xray3d-integer-edge: footprints whose left edge lies on
-    a bin edge are credited to the next bin by the pinned `ceil` formula); (b) the 1-d footprint splits of the Lean model
+    """(a) real matrix = DOCUMENTED footprint model (area of the footprint square inside each detector pixel); (b) the 1-d footprint splits of the Lean model
     (coded and documented) against the weights the code computes; (c) mass conservation per view when the detector covers
     every footprint"""
     import jax.numpy as jnp
@@ -739,17 +729,11 @@ def xray3d_checks(ctx, lean, oracle, name, c, op, R, case, tol):
     dist = np.abs(le - np.round(le))
     int_edge = bool(np.any(dist < 1e-9))
     D_doc = linops_ref.r_XRayTransform3D(c)
-    known = None
-    left_partial = linops_ref.xray3d_left_edge_partial(c)
     if not _close(R, D_doc, tol):
-        # recorded deviation of the pinned code: a negative first index drops the neighbouring pixel as well
-        if left_partial and _close(R, linops_ref.r_XRayTransform3D(c, couple_negative=True), tol):
-            known = "xray-left-edge-drop"
         ctx.count("xray3d-differs-from-documented")
-        ctx.disagree("ref.XRayTransform3D.matrix", case, _summ(R), _summ(D_doc), oracle=oracle, known_id=known,
+        ctx.disagree("ref.XRayTransform3D.matrix", case, _summ(R), _summ(D_doc), oracle=oracle,
                      note="dense matrix of the real projector differs from the documented voxel-footprint model")
-        if known is None or not ctx.is_known(known):
-            return False
+        return False
     # (b) Lean 1-d splits on the left edges vs the weights of the code (whole volume = one slab when <= 10 slices)
     exact_or_far = not bool(np.any((dist > 0) & (dist < 1e-9)))
     if sh[0] <= 10 and exact_or_far:
@@ -1019,7 +1003,6 @@ def _axes_oracle(case):
 
 
 KNOWN_WITNESSES = {
-    "xray-left-edge-drop": ("XRayTransform2D", {"shape": [1, 1], "angles": [0.0], "det_count": 2, "dx": 1.0, "x0": [-0.5, -0.5], "y0": 0.0}, "matrix"),
     "dft-inv-padded": ("DFT", {"shape": [4], "axes": None, "axes_shape": [8], "norm": None}, "inverse"),
     "projgrad-cdiff-single-axis": ("ProjectedGradient", {"shape": [4], "axes": [0], "coord": [{"array": {"shape": [1, 4], "re": [0.0, 0.25, 1.5, 0.625], "im": None}}], "cdiff": True, "dtype": "float64"}, "matrix"),
 }
